@@ -30,7 +30,7 @@ CELL_NAMES = ["c2", "c10", "c1", "cell_A.1", "GSM123-rep.2", "10", "2", "sample 
 
 def plan(tier, seed):
     n = 16 if tier == "quick" else 48
-    per = 20 if tier == "quick" else 60
+    per = 20 if tier == "quick" else 150
     return [{"kind": "scool", "sub": i, "cases": per} for i in range(n)]
 
 
